@@ -7,13 +7,17 @@ MANIFEST = {
     "text": "Coq theorems over an executable model of loadbalance.Select and its five policies (candidate SETS: random choices and map "
             "order are nondeterminism) for ALL states / histories of sessions opening and closing: C19_live (a chosen session is "
             "registered and open), C19_nil (nil only when none is open), C19_xid (ip:port:id goes to the open session at ip:port), with md5 "
-            "universally quantified; re-announcement over ALL register/conn-lost/reconnect histories: C19_reannounce_refuted + "
-            "C19_reannounce_partial (the code re-sends RegisterTM only). Tie on every run: the real Select over fake getty sessions along "
-            "generated histories (the pick must be a candidate of a tracked model state, evaluated by vm_compute, md5 values supplied per "
-            "case), the real OnOpen/OnClose/RegisterResource over a recording session; direct oracle = the property text.",
-    "note": "Trusted: Coq kernel + vm_compute, no axioms; harness/lb (fake getty.Session, registry bookkeeping, md5 table); single coordinator "
-            "connection in the reconnect half (no TCP stub: handler-level drive); known finding reconnect.rm-reannounce. "
-            "fix 'consistent hash never returns a closed session' is in the repo; the model follows the fixed code.",
+            "universally quantified; re-announcement over ALL register-resource/conn-lost/reconnect histories (sessions closed by the peer "
+            "or released open, any address, failing first writes): C19_reannounce (FULL: every established session carries RegisterTM and a "
+            "RegisterRM naming every held resource of every branch type) and C19_registered_announced (invariant: a registered open session "
+            "is an announced one). Tie on every run: the real Select over fake getty sessions along generated histories and through the "
+            "integrated SendAsyncRequest/selectSession path (the pick must be a candidate of a tracked model state, vm_compute, md5 values "
+            "supplied per case); the real OnOpen/OnClose/OnError and the real TCC/AT/XA resource managers' RegisterResource over recording "
+            "sessions, requests written and session-manager counts per event compared with the model; direct oracle = the property text.",
+    "note": "Trusted: Coq kernel + vm_compute, no axioms; harness/lb (fake getty.Session, registry bookkeeping, md5 table). Reconnect half is "
+            "driven at handler level (no TCP stub); the model has one coordinator connection, several simultaneous connections are judged by "
+            "the direct oracle only. Repo fixes the model follows: consistent hash never returns a closed session; getXid reads the message "
+            "body; a newly opened session is told the registered resources again (former finding C19-rm-reannounce).",
     "technique": "Coq proof over an executable nondeterministic model + differential correspondence (membership in the model's candidate set, vm_compute)",
 }
 PROP_FILE = "Props/P_C19.v"
@@ -58,9 +62,9 @@ def lcase_term(h, upto=None):
 def req_term(s):
     if s == "TM":
         return "RegisterTM"
-    if s.startswith("RM:"):
-        return "(RegisterRM %s)" % coq_hex(hexs(s[3:]))
-    return "(RegisterRM %s)" % coq_hex(hexs("<<" + s + ">>"))
+    if s.startswith("RM:"):   # ResourceIds: ids joined by ","
+        return "(RegisterRM %s)" % coq_list([coq_hex(hexs(i)) for i in s[3:].split(",")])
+    return "(RegisterRM [%s])" % coq_hex(hexs("<<" + s + ">>"))
 
 
 def ccase_term(c):
@@ -68,7 +72,7 @@ def ccase_term(c):
     for e in c["events"]:
         k = e["k"]
         addr = coq_hex(hexs(e.get("addr", "")))
-        ce = {"resource": "(CRegisterResource %s)" % coq_hex(hexs(e.get("res", ""))),
+        ce = {"resource": "(CRegisterResource %d %s)" % (e.get("bt", 0), coq_hex(hexs(e.get("res", "")))),
               "lost": "(CConnLost %s)" % ("true" if e.get("by_peer") else "false"),
               "reconnect": "(CReconnect %s %s)" % (addr, "false" if e.get("write_fail") else "true")}[k]
         evs.append("(%s, {| co_sent := %s; co_addr := %s; co_per := %d; co_all := %d; co_open := %s |})" % (
